@@ -2409,3 +2409,31 @@ mutant("c08-f54-restored-session-stays", "C08", "C08-D13", "adapter/adapter_sess
 # F55
 mutant("c05-f55-disconnect-packet-while-pending", "C05", "C05-D12", "client_socket.go",
        "	if s.Connected() {\n		s.debug.Log(\"Performing disconnect\", s.namespace)", "	if s.connectedOrConnectPending() {\n		s.debug.Log(\"Performing disconnect\", s.namespace)")
+
+# F57
+mutant("c06-f57-closed-socket-adopts-the-transport", "C06", "C06-D12", "engine.io/server_socket.go",
+       """	select {
+	case <-s.closeChan:
+		s.debug.Log("UpgradeTo", "socket is closed. Closing the new transport")
+		c.Set(nil, nil)
+		t.Close()
+		return
+	default:
+	}
+""", "")
+mutant("c07-f57-client-adopts-the-transport-after-close", "C07", "C07-D9", "engine.io/client_socket.go",
+       """	select {
+	case <-s.closeChan:
+		s.debug.Log("upgradeTo", "socket is closed. Closing the new transport")
+		c.Set(nil, nil)
+		t.Close()
+		return
+	default:
+	}
+""", "")
+mutant("c17-f57-upgrade-watcher-ignores-the-close", "C17", "C17-D7", "engine.io/server.go",
+       """		case <-socket.closeChan:
+			// The socket was closed while the upgrade was in flight. Don't leave the probing transport open.
+			s.debug.Log("Socket was closed during the upgrade")
+			t.Close()
+""", "")
